@@ -253,7 +253,7 @@ pub fn evaluate(inp: &RefInput) -> Result<RefOut, RefErr> {
 
     // building totals (accumulated over carriers)
     let mut tot: BTreeMap<String, V> = BTreeMap::new();
-    let mut acc = |tot: &mut BTreeMap<String, V>, key: String, x: V| {
+    let acc = |tot: &mut BTreeMap<String, V>, key: String, x: V| {
         let e = tot.entry(key).or_insert(V::ZERO);
         *e = e.add(x);
     };
